@@ -11,3 +11,12 @@ pub use node_storage::*;
 pub(crate) use resource_node::*;
 pub(crate) use stat_prepare_slot::*;
 pub(crate) use stat_slot::*;
+
+/// Public view of the crate-private statistic types, for the verification harness only.
+#[cfg(flea1lt_sentinel_rust_verif)]
+pub mod verif_exports {
+    pub use super::base::*;
+    pub use super::resource_node::*;
+    pub use super::stat_prepare_slot::*;
+    pub use super::stat_slot::*;
+}
